@@ -256,6 +256,17 @@ class C06(P.TextMixin, Harness):
             us.append({'schema': sid, 'files': files, 'balanced': True, 'base': base, 'urlstyle': 'path'})
         for i in range(len(REALFILE_STARTS)):
             us.append({'schema': 'S2', 'realfile': i, 'files': [], 'balanced': True, 'base': 'realfile'})
+        # the includer reached through a symbolic link into another directory: references are relative
+        # to the URL the resource was loaded by (the link), not to where the file is stored
+        for how in ('abs', 'rel'):
+            us.append({'schema': 'S2', 'symlink': how, 'files': [], 'balanced': True, 'base': 'symlink'})
+        # ONE ConfigLoader: a first load that fails while the included resource is being read (the
+        # fragment is a stray closer), then the real load through the same loader object
+        for base, cuts in (('B1', [(MAINNAME, 1, 5, 'x/inc.conf')]), ('B4', [(MAINNAME, 3, 6, 'x/inc.conf')]),
+                           ('B3', [(MAINNAME, 1, 5, 'inc.conf')]),
+                           ('B1', [(MAINNAME, 1, 5, 'x/inc.conf'), ('x/inc.conf', 1, 3, 'x/sub/in2.conf')])):
+            sid, files = make_files(base, cuts)
+            us.append({'schema': sid, 'files': files, 'balanced': True, 'base': base, 'retry': True})
         for base, cuts, bal in (CUTS_Q if tier == 'quick' else CUTS_T) + generated_cuts(tier):
             sid, files = make_files(base, cuts)
             # the declared flag must agree with the nesting of every fragment (a hand-written entry
@@ -311,10 +322,76 @@ class C06(P.TextMixin, Harness):
             return ('crash', type(e).__name__)
         return ('ok', P.walk(cfg))
 
+    def _symlink(self, unit, included):
+        import io
+        import os
+        import shutil
+        import tempfile
+        import ZConfig
+        frag = ['kt 5', '<ta n1>', '  ka 1', '</ta>']
+        schema = P.load_schema(self._xml(unit))
+        cwd = os.getcwd()
+        d = tempfile.mkdtemp(prefix='vfc06_')
+        try:
+            if not included:
+                cfg, _ = ZConfig.loadConfigFile(schema, io.StringIO(''.join(l + '\n' for l in ['zz top'] + frag)))
+            else:
+                os.makedirs(os.path.join(d, 'stored'))
+                os.makedirs(os.path.join(d, 'enabled'))
+                open(os.path.join(d, 'stored', 'main.conf'), 'w').write('zz top\n%include inc.conf\n')
+                os.symlink(os.path.join('..', 'stored', 'main.conf'), os.path.join(d, 'enabled', 'main.conf'))
+                open(os.path.join(d, 'enabled', 'inc.conf'), 'w').write(''.join(l + '\n' for l in frag))
+                # a file of the same name next to the link's target says something else
+                open(os.path.join(d, 'stored', 'inc.conf'), 'w').write('kt 6\n')
+                if unit['symlink'] == 'abs':
+                    cfg, _ = ZConfig.loadConfig(schema, os.path.join(d, 'enabled', 'main.conf'))
+                else:
+                    os.chdir(d)
+                    cfg, _ = ZConfig.loadConfig(schema, os.path.join('enabled', 'main.conf'))
+        except ZConfig.ConfigurationError:
+            return ('reject',)
+        except Exception as e:
+            return ('crash', type(e).__name__)
+        finally:
+            os.chdir(cwd)
+            shutil.rmtree(d, ignore_errors=True)
+        return ('ok', P.walk(cfg))
+
+    def _retry(self, unit, files, concrete):
+        import ZConfig
+        import ZConfig.loader
+        schema = P.load_schema(self._xml(unit))
+        loader = ZConfig.loader.ConfigLoader(schema)
+        good = {P.BASE + n: ls for n, ls in files}
+        # first attempt: the innermost fragment consists of a stray closer
+        bad = dict(good)
+        bad[P.BASE + files[-1][0]] = ['</nosuch>']
+        with common.env_scope(concrete, {}):
+            with P.mem_resources(bad):
+                try:
+                    loader.loadFile(common.make_file(files[0][1]), P.BASE + files[0][0])
+                    return ('first-load-accepted',)
+                except ZConfig.ConfigurationError:
+                    pass
+                except Exception as e:
+                    return ('crash', type(e).__name__)
+            with P.mem_resources(good):
+                try:
+                    cfg, h = loader.loadFile(common.make_file(files[0][1]), P.BASE + files[0][0])
+                    return ('ok', P.walk(cfg))
+                except ZConfig.ConfigurationError:
+                    return ('reject',)
+                except Exception as e:
+                    return ('crash', type(e).__name__)
+
     def observe(self, unit, inp):
         if 'realfile' in unit:
             return self._realfile(unit, True)
+        if 'symlink' in unit:
+            return self._symlink(unit, True)
         files = self.text_files(unit, inp)
+        if unit.get('retry'):
+            return self._retry(unit, files, common.all_concrete(inp))
         if unit.get('urlstyle') == 'path':
             # loadConfigFile(schema, file, url='/m/d/x/main.conf'): includes become file:///m/d/... URLs
             store = {'file:///m/d/' + n: ls for n, ls in files}
@@ -325,6 +402,8 @@ class C06(P.TextMixin, Harness):
     def expect(self, unit, inp, real):
         if 'realfile' in unit:
             return self._realfile(unit, False)
+        if 'symlink' in unit:
+            return self._symlink(unit, False)
         if not unit['balanced']:
             return ('reject',)
         files = self.text_files(unit, inp)
